@@ -33,6 +33,7 @@ pub fn db_profile(max_nodes: usize) -> ForestProfile {
         exclude_unknown_types: vec![],
         multi_spelling: false,
         non_serializing: true,
+        narrow_numbers: true,
     }
 }
 
